@@ -27,6 +27,12 @@ LINE_POOL = [
     "a\u2028b".encode("utf-8"), "p\u2029q".encode("utf-8"), "n\u0085m".encode("utf-8"), b"v\x0bt", b"f\x0cf", b"g\x1cs\x1dr\x1eu",
 ]
 
+# characters that text-handling code tends to special-case: combining marks, zero-width and bidi controls, BOM, NBSP,
+# Unicode line/paragraph separators and NEL, VT/FF/FS, DEL, compatibility characters, case-folding oddities, astral
+UNICODE_ODDITIES = "\u0301\u200b\u200d\u202e\ufeff\u00a0\u2028\u2029\u0085\x0b\x0c\x1c\x7f\u212b\ufb01\U0001f600\u0130\u00df\u0131"
+# the subset RFC 5804 section 1.6 allows in script names (no C0/C1 controls, no U+2028/2029)
+NAME_ODDITIES = "\u0301\u200b\u200d\u202e\ufeff\u00a0\u212b\ufb01\U0001f600\u0130\u00df\u0131"
+
 EOLS = [b"\r\n", b"\n"]
 
 
